@@ -22,6 +22,7 @@ import shutil
 import struct
 import subprocess
 import sys
+import threading
 from concurrent.futures import ThreadPoolExecutor
 
 from . import common as C
@@ -29,6 +30,24 @@ from . import common as C
 SPEC = os.path.join(C.VERIF, "spec", "pybridge")
 HARN = os.path.join(C.VERIF, "harness", "c19")
 PYLIB = os.path.join(HARN, "pylib")
+
+_LOCK = threading.RLock()          # the parts run concurrently; every update of the shared Check object goes through here
+
+
+def bump(chk, key, n=1):
+    with _LOCK:
+        chk.cov[key] = chk.cov.get(key, 0) + n
+
+
+def serialise(chk):
+    for name in ("add_tlc", "sample", "reject"):
+        orig = getattr(chk, name)
+
+        def locked(*a, _o=orig, **k):
+            with _LOCK:
+                return _o(*a, **k)
+        setattr(chk, name, locked)
+
 
 # ----------------------------------------------------------------------------- token tables (owned by the harness)
 
@@ -719,9 +738,9 @@ def part_values(chk, thorough, sd, cases, counts):
         chk.reject("values:imports", "import requests seen by the interpreter: %r, expected one for vmod and one for vpk.sub" % imports,
                    {"imports": imports})
     n = len(cases)
-    chk.cov["evaluations"] += n
-    chk.cov["traces_validated_against_impl"] += n
-    chk.cov["distinct_nontrivial"] += len({c["_exp"]["C"] + "|" + "|".join(c["_exp"]["py"]) for c in cases})
+    bump(chk, "evaluations", n)
+    bump(chk, "traces_validated_against_impl", n)
+    bump(chk, "distinct_nontrivial", len({c["_exp"]["C"] + "|" + "|".join(c["_exp"]["py"]) for c in cases}))
     chk.cov["value_cases"] = dict(counts, replayed=n, static_nested=sum(1 for c in cases if c.get("static")),
                                   crashes=len(crashes))
     for i in (0, len(cases) // 3, len(cases) // 2, len(cases) - 20):
@@ -950,25 +969,27 @@ def part_imports(chk, thorough, sd):
             if json.dumps(dup) in allowed[key] or (late != ev and json.dumps(late) in allowed[key]):
                 raise C.Undecided("negative control not flagged: the trace membership test accepts a corrupted trace")
             negdone = True
-        chk.cov["evaluations"] += 1
-        chk.cov["traces_validated_against_impl"] += 1
-        chk.cov["distinct_nontrivial"] += 1
+        bump(chk, "evaluations")
+        bump(chk, "traces_validated_against_impl")
+        bump(chk, "distinct_nontrivial")
         chk.sample({"shape": key, "observed_events": ev, "allowed_orders": len(allowed[key])}, limit=8)
     chk.cov["import_programs_built"] = len(sel)
 
 
 def part_impl_model(chk):
     """layer B: llgo's mechanism against the clauses of A (report only, never a verdict)"""
-    if not os.path.exists(os.path.join(SPEC, "PyImportImpl.tla")):
-        return
-    for cfg in ("impl_guard.cfg", "impl_noguard.cfg"):
+    for cfg, want_ok in (("impl_guard.cfg", True), ("impl_noguard.cfg", False)):
         try:
             res = C.tlc(SPEC, "PyImportImpl", cfg, chk.rd.path, timeout=900, parse_json=False)
         except C.Undecided as e:
             C.log("note: PyImportImpl/%s could not be checked: %s" % (cfg, str(e)[:300]))
             continue
         chk.add_tlc(res, "PyImportImpl/" + cfg[:-4])
-        chk.cov.setdefault("impl_model", []).append({"cfg": cfg[:-4], "ok": res.ok, "violation": res.violation})
+        with _LOCK:
+            chk.cov.setdefault("impl_model", []).append({"cfg": cfg[:-4], "ok": res.ok, "violation": res.violation,
+                                                          "as_expected": res.ok == want_ok})
+        if res.ok != want_ok:
+            C.log("note: PyImportImpl/%s: %s (layer B drift, not a verdict)" % (cfg, res.violation or "no violation although the import guard is removed"))
 
 
 def check(chk):
@@ -984,13 +1005,21 @@ def check(chk):
                        "linked with libpython3.11 and judged on (what Python logged, what Go read back dynamically, typed read-back). "
                        "import case = program shape built and run, judged on import requests per module and membership of the observed "
                        "event order in the TLC-enumerated set; non-trivial = distinct expected observation")
-    cases, counts = load_cases(chk, thorough, sd)
-    with ThreadPoolExecutor(max_workers=2) as ex:
-        fv = ex.submit(part_values, chk, thorough, sd, cases, counts)
+    serialise(chk)
+    with ThreadPoolExecutor(max_workers=4) as ex:
+        fc = ex.submit(load_cases, chk, thorough, sd)
         fi = ex.submit(part_imports, chk, thorough, sd)
-        fv.result()
-        fi.result()
-    part_impl_model(chk)
+        fb = ex.submit(part_impl_model, chk)
+        cases, counts = fc.result()
+        fv = ex.submit(part_values, chk, thorough, sd, cases, counts)
+        errs = []
+        for f in (fv, fi, fb):
+            try:
+                f.result()
+            except Exception as e:           # let every part finish (and clean up) before the first failure is reported
+                errs.append(e)
+        if errs:
+            raise errs[0]
     chk.assumptions += [
         "platform linux/amd64: int, uint, uintptr, C long are 64 bit (Bits() in PyBridge.tla)",
         "harness-owned tables: float token -> IEEE bits, canonical text encoding enc() (python3 running the same calls validates both on every run)",
